@@ -262,6 +262,60 @@ class Ctx:
                 return f
         return default
 
+    def literal_converter(self) -> str:
+        """Name of the ProvRecord method that normalises a non-formal attribute value (today `_auto_literal_conversion`):
+        discovered as the method of ProvRecord that tests its argument against the model's Literal class and that
+        `add_attributes` (or a helper it delegates to) calls on `self`.  AnalysisError if there is not exactly one."""
+        if "literal-converter" in self._cache:
+            return self._cache["literal-converter"]
+        rec = M + ".ProvRecord"
+        aq = self.p.lookup_method(rec, "add_attributes")
+        if aq is None:
+            raise AnalysisError("anchor vanished: ProvRecord.add_attributes")
+        called = set()
+        for q2 in self.helper_closure(aq, depth=2):
+            fi = self.p.functions.get(q2)
+            if fi is None:
+                continue
+            for c in calls_in(fi.node):
+                if isinstance(c.func, ast.Attribute) and isinstance(c.func.value, ast.Name) and c.func.value.id == "self":
+                    called.add(c.func.attr)
+        cands = []
+        for name in sorted(called):
+            mq = self.p.lookup_method(rec, name)
+            fi = self.p.functions.get(mq) if mq else None
+            if fi is None or fi.cls != rec or len(fi.params) != 2:
+                continue
+            # the test may sit in the method or in a private function it hands its argument to
+            for hq in self.helper_closure(mq, depth=2):
+                hf = self.p.functions.get(hq)
+                if hf is None or isinstance(hf.node, ast.Lambda) or (hq != mq and not hf.name.startswith("_")):
+                    continue
+                for c in calls_in(hf.node):
+                    if call_name(c) == "isinstance" and len(c.args) == 2 and isinstance(c.args[0], ast.Name) and c.args[0].id in hf.params:
+                        types = c.args[1].elts if isinstance(c.args[1], ast.Tuple) else [c.args[1]]
+                        for t in types:
+                            r = self.p.resolve_dotted(hf.module, t) if dotted(t) else None
+                            if r and r[0] == "class" and r[1] == M + ".Literal" and name not in cands:
+                                cands.append(name)
+        if len(cands) > 1:
+            # helpers the converter itself delegates to are not the converter: keep the candidates that are called from outside
+            # the candidates (from add_attributes or one of its other helpers)
+            outer = []
+            for q2 in self.helper_closure(aq, depth=2):
+                fi2 = self.p.functions.get(q2)
+                if fi2 is None or fi2.name in cands:
+                    continue
+                for c in calls_in(fi2.node):
+                    if isinstance(c.func, ast.Attribute) and isinstance(c.func.value, ast.Name) and c.func.value.id == "self" and c.func.attr in cands and c.func.attr not in outer:
+                        outer.append(c.func.attr)
+            if len(outer) == 1:
+                cands = outer
+        if len(cands) != 1:
+            raise AnalysisError("cannot identify ProvRecord's literal converter (candidates: %s)" % cands)
+        self._cache["literal-converter"] = cands[0]
+        return cands[0]
+
     def canon_field(self, cls_qual: Optional[str], attr: str) -> str:
         if cls_qual:
             al = self.field_aliases(cls_qual)
